@@ -48,8 +48,10 @@ Live(t, nb) == t + 2 * Day >= now \/ nb + 3 * Day >= now
 ViewExh == <<now, keys, currentID, generatedAt,
              [i \in {j \in DOMAIN issued : Live(issued[j].t, issued[j].nb)} |-> issued[i]],
              {k \in seen : Live(k.nb, k.nb)}>>
+\* (a tracked issue that left its windows is "spent": unlike << >> it cannot be
+\* replaced by a later issue, so the two must not share a fingerprint)
 ViewDeep == <<now, keys, currentID, generatedAt,
-              [i \in {j \in DOMAIN tracked : Live(tracked[j].t, tracked[j].nb)} |-> tracked[i]],
+              IF \A j \in DOMAIN tracked : Live(tracked[j].t, tracked[j].nb) THEN tracked ELSE <<"spent">>,
               {k \in seen : Live(k.nb, k.nb)}>>
 HistBelow == (\A k \in seen : k.id <= currentID) /\ (\A i \in DOMAIN issued : i <= currentID)
 
@@ -69,6 +71,9 @@ GenNext ==
      \/ Current /\ hist' = Append(hist, ret')
      \/ (\E id \in ProbeIds : Get(id)) /\ hist' = Append(hist, ret')
 SpecGen == MCInit /\ [][GenNext /\ UNCHANGED <<tracked, pick>>]_allvars
+\* behaviours end with a call (a trailing clock step observes nothing)
+Emit == (Len(hist) = GenLen /\ ~LastIsAdv) =>
+          PrintT(<<"CASE", ToJson([day |-> Day, h |-> hist])>>)
 
 \* `tlc -simulate` picks uniformly among the successor states: Current() is
 \* given the weight SimW, look-ups are limited to the newest identifiers, 0 and
@@ -90,7 +95,7 @@ EmitSim == pick = SimDone => PrintT(<<"CASE", ToJson([day |-> Day, h |-> hist])>
 
 \* ---- constant sets (cfg files cannot hold expressions)
 GapsExh  == 1 .. 20                                  \* 6 h .. 5 days in 6-hour units
-GapsDeep == (1 .. 26) \cup {32, 40}                  \* 3-hour units: 3 h .. 78 h, 4 d, 5 d
+GapsDeep == (1 .. 17) \cup {23, 24, 25, 32, 40}      \* 3-hour units: 3 h .. 51 h, 3 d +- 3 h, 4 d, 5 d
 GapsHour == {23, 24, 25, 47, 48, 49, 71, 72, 73, 120} \* hours around the 1/2/3-day marks, 5 d
 GapsGen  == {1, 4, 5, 8, 12, 13}                     \* 6 h, 24 h, 30 h, 48 h, 72 h, 78 h
 GapsSim  == {1, 2, 3, 4, 5, 7, 8, 9, 11, 12, 13, 16, 20}
